@@ -21,7 +21,7 @@ Definition acc (s : st) (k : kernel) (n : name) : Prop :=
        end.
 (* ... and its dirtiness is recorded *)
 Definition dirty_ok (s : st) (n : name) : Prop :=
-  ∀ d p, is_Some (s_des s !! n) → s_trk s !! n = Some (d, p) → d ≠ p → n ∈ s_dirty s.
+  ∀ d p, is_Some (s_des s !! n) → needed s n = true → s_trk s !! n = Some (d, p) → d ≠ p → n ∈ s_dirty s.
 Definition good1 (s : st) (k : kernel) (n : name) : Prop := acc s k n ∧ dirty_ok s n.
 (* X = names exempted for the moment *)
 Definition okx (X : gset name) (s : st) (k : kernel) (n : name) : Prop := n ∈ X ∨ n ∈ s_must s ∨ good1 s k n.
@@ -29,40 +29,42 @@ Definition V (s : st) (k : kernel) : Prop := ∀ n, owned n = true → okx ∅ s
 
 (* everything good1 looks at *)
 Definition lstate (s : st) (n : name) :=
-  (s_dp s !! n, s_trk s !! n, s_des s !! n, bool_decide (n ∈ s_dirty s)).
+  (s_dp s !! n, s_trk s !! n, s_des s !! n, bool_decide (n ∈ s_dirty s), needed s n).
 
 Lemma good1_local s s' k k' n :
   lstate s' n = lstate s n -> k' !! n = k !! n -> good1 s k n -> good1 s' k' n.
 Proof.
-  unfold lstate. intros H Hk [Ha Hd]. injection H as E1 E2 E3 E4.
+  unfold lstate. intros H Hk [Ha Hd]. injection H as E1 E2 E3 E4 E5.
   split.
   - unfold acc in *. rewrite E1, E2, Hk. done.
-  - unfold dirty_ok in *. rewrite E2, E3. intros d p H1 H2 H3.
-    specialize (Hd d p H1 H2 H3). apply (bool_decide_eq_true_1 (n ∈ s_dirty s')). rewrite E4. by apply bool_decide_eq_true_2.
+  - unfold dirty_ok in *. rewrite E2, E3, E5. intros d p H1 Hn H2 H3.
+    specialize (Hd d p H1 Hn H2 H3). apply (bool_decide_eq_true_1 (n ∈ s_dirty s')). rewrite E4. by apply bool_decide_eq_true_2.
 Qed.
 
 Lemma lstate_upd_dirty n s m : m ≠ n -> lstate (upd_dirty n s) m = lstate s m.
 Proof.
-  intros H. unfold lstate.
-  assert (s_dp (upd_dirty n s) = s_dp s ∧ s_trk (upd_dirty n s) = s_trk s ∧ s_des (upd_dirty n s) = s_des s) as (-> & -> & ->)
-    by (unfold upd_dirty; destruct (s_trk s !! n) as [[d p]|]; [case_bool_decide|]; done).
-  f_equal. apply bool_decide_ext. unfold upd_dirty. destruct (s_trk s !! n) as [[d p]|]; [case_bool_decide|]; simpl; set_solver.
+  intros H. unfold lstate, needed.
+  assert (s_dp (upd_dirty n s) = s_dp s ∧ s_trk (upd_dirty n s) = s_trk s ∧ s_des (upd_dirty n s) = s_des s
+          ∧ s_filter (upd_dirty n s) = s_filter s) as (-> & -> & -> & ->)
+    by (unfold upd_dirty; destruct (s_trk s !! n) as [[d p]|]; [destruct (_ && _)|]; done).
+  f_equal. f_equal. apply bool_decide_ext. unfold upd_dirty. destruct (s_trk s !! n) as [[d p]|]; [destruct (_ && _)|]; simpl; set_solver.
 Qed.
 
 Lemma acc_upd_dirty n s k m : acc (upd_dirty n s) k m ↔ acc s k m.
 Proof.
   assert (s_dp (upd_dirty n s) = s_dp s ∧ s_trk (upd_dirty n s) = s_trk s) as [E1 E2]
-    by (unfold upd_dirty; destruct (s_trk s !! n) as [[d p]|]; [case_bool_decide|]; done).
+    by (unfold upd_dirty; destruct (s_trk s !! n) as [[d p]|]; [destruct (_ && _)|]; done).
   unfold acc. rewrite E1, E2. done.
 Qed.
 
 Lemma good1_upd_dirty n s k : acc s k n -> good1 (upd_dirty n s) k n.
 Proof.
   intros H. split; [by apply acc_upd_dirty|].
-  unfold dirty_ok, upd_dirty. intros d p _ Ht Hne.
-  destruct (s_trk s !! n) as [[d' p']|] eqn:E.
-  - case_bool_decide; simpl in *; rewrite E in Ht; simplify_eq; set_solver.
-  - simpl in Ht. rewrite E in Ht. done.
+  unfold dirty_ok. intros d p _ Hn Ht Hne.
+  destruct (fields_upd_dirty n s) as (_ & _ & E3 & _ & _ & _ & E7 & _).
+  unfold needed in Hn. rewrite E7 in Hn. rewrite E3 in Ht.
+  unfold upd_dirty. rewrite Ht. unfold needed. rewrite Hn. rewrite (bool_decide_eq_false_2 (d = p)) by done.
+  simpl. set_solver.
 Qed.
 
 Lemma must_upd_dirty n s : s_must (upd_dirty n s) = s_must s.
@@ -73,7 +75,7 @@ Lemma lstate_on_missing n s m : m ≠ n -> lstate (on_missing n s) m = lstate s 
 Proof.
   intros H. unfold on_missing.
   set (s1 := set_dp (delete n) s).
-  set (s2 := match s_trk s1 !! n with Some (d, _) => if bool_decide (is_Some (s_des s1 !! n)) then set_trk <[n:=(d, ∅)]> s1 else set_trk (delete n) s1 | None => s1 end).
+  set (s2 := match s_trk s1 !! n with Some (d, _) => if bool_decide (is_Some (s_all s1 !! n)) then set_trk <[n:=(d, ∅)]> s1 else set_trk (delete n) s1 | None => s1 end).
   assert (lstate s2 m = lstate s m) as E.
   { subst s2 s1. unfold lstate. repeat case_match; simpl; rewrite ?lookup_delete_ne, ?lookup_insert_ne by done; done. }
   rewrite <- E. unfold lstate at 1. simpl.
@@ -87,7 +89,7 @@ Lemma good1_on_missing n s k : k !! n = None -> good1 (on_missing n s) k n.
 Proof.
   intros Hk. unfold on_missing.
   set (s1 := set_dp (delete n) s).
-  set (s2 := match s_trk s1 !! n with Some (d, _) => if bool_decide (is_Some (s_des s1 !! n)) then set_trk <[n:=(d, ∅)]> s1 else set_trk (delete n) s1 | None => s1 end).
+  set (s2 := match s_trk s1 !! n with Some (d, _) => if bool_decide (is_Some (s_all s1 !! n)) then set_trk <[n:=(d, ∅)]> s1 else set_trk (delete n) s1 | None => s1 end).
   assert (acc s2 k n) as Ha.
   { unfold acc. rewrite Hk. destruct (is_temp n); [by left|].
     assert (s_dp s2 !! n = None) as ->.
@@ -117,7 +119,7 @@ Proof.
 Qed.
 
 Lemma des_upd_dirty n s : s_des (upd_dirty n s) = s_des s.
-Proof. unfold upd_dirty. destruct (s_trk s !! n) as [[d p]|]; [case_bool_decide|]; done. Qed.
+Proof. unfold upd_dirty. destruct (s_trk s !! n) as [[d p]|]; [destruct (_ && _)|]; done. Qed.
 Lemma des_on_missing n s : s_des (on_missing n s) = s_des s.
 Proof. unfold on_missing. simpl. rewrite des_upd_dirty. repeat case_match; done. Qed.
 Lemma des_resync_one k n s : s_des (resync_one k n s) = s_des s.
@@ -183,10 +185,10 @@ Proof. intros H [?|?]; [left; set_solver|by right]. Qed.
 
 Lemma okx_fields X s s' k m :
   s_must s' = s_must s -> s_dp s' = s_dp s -> s_trk s' = s_trk s -> s_des s' = s_des s -> s_dirty s' = s_dirty s ->
-  okx X s k m -> okx X s' k m.
+  s_filter s' = s_filter s -> okx X s k m -> okx X s' k m.
 Proof.
-  intros E1 E2 E3 E4 E5 [H|[H|H]]; [by left|right; left; by rewrite E1|right; right].
-  eapply good1_local; [|done|exact H]. unfold lstate. by rewrite E2, E3, E4, E5.
+  intros E1 E2 E3 E4 E5 E6 [H|[H|H]]; [by left|right; left; by rewrite E1|right; right].
+  eapply good1_local; [|done|exact H]. unfold lstate, needed. by rewrite E2, E3, E4, E5, E6.
 Qed.
 
 Lemma WF_no_temp_des s : WF s -> no_temp_des s.
@@ -226,9 +228,10 @@ Qed.
 
 Lemma fields_foldr_rq_add_bg l s :
   let s' := foldr rq_add_bg s l in
-  s_must s' = s_must s ∧ s_dp s' = s_dp s ∧ s_trk s' = s_trk s ∧ s_des s' = s_des s ∧ s_dirty s' = s_dirty s.
+  s_must s' = s_must s ∧ s_dp s' = s_dp s ∧ s_trk s' = s_trk s ∧ s_des s' = s_des s ∧ s_dirty s' = s_dirty s
+  ∧ s_filter s' = s_filter s.
 Proof.
-  induction l as [|n l IH]; simpl; [done|]. destruct IH as (E1 & E2 & E3 & E4 & E5).
+  induction l as [|n l IH]; simpl; [done|]. destruct IH as (E1 & E2 & E3 & E4 & E5 & E6).
   unfold rq_add_bg. destruct (_ || _); simpl; done.
 Qed.
 
@@ -240,7 +243,7 @@ Proof.
   { intros n Hn Ho. apply elem_of_elements in Hn. apply elem_of_difference in Hn as [Hc Hnl].
     by apply owned_not_listed. }
   pose proof (okx_foldr_on_missing k _ ∅ s m Hm Hl (Hv m Hm)) as H1.
-  destruct (fields_foldr_rq_add_bg (elements listed) (sweep listed s)) as (E1 & E2 & E3 & E4 & E5).
+  destruct (fields_foldr_rq_add_bg (elements listed) (sweep listed s)) as (E1 & E2 & E3 & E4 & E5 & E6).
   eapply okx_fields; [..|eapply okx_mono; [|exact H1]]; try done. set_solver.
 Qed.
 
@@ -259,7 +262,7 @@ Proof.
     assert (owned n = true) as Ho by (apply (wf_q _ Hs); set_solver).
     set (s1 := set_bg (.∖ {[n]}) s) in *.
     assert (good s s1) as G1.
-    { split; [|done]. destruct Hs as [H1 H2 H3]. split; [done|done|]. simpl. intros m Hm'. apply H3. set_solver. }
+    { split; [|done]. destruct Hs as [H1 H2 H3 H4]. split; [done|done| |done]. simpl. intros m Hm'. apply H3. set_solver. }
     pose proof (good_resync_one k n s1 Ho (proj1 G1)) as G2.
     eapply IH; [exact H|apply G2|done| |].
     + intros m Hm'. apply (okx_mono (∅ ∖ {[n]})); [set_solver|].
@@ -276,7 +279,7 @@ Proof.
   set (mustn := take (size (s_must s)) names) in *.
   set (s0 := set_must (λ _, ∅) s) in *.
   assert (good s s0) as G0.
-  { split; [|done]. destruct Hs as [H1 H2 H3]. split; [done|done|]. simpl. intros m Hm. apply H3. set_solver. }
+  { split; [|done]. destruct Hs as [H1 H2 H3 H4]. split; [done|done| |done]. simpl. intros m Hm. apply H3. set_solver. }
   assert (Forall (λ n, owned n = true) mustn) as Hown.
   { apply Forall_forall. intros n Hn'. apply (wf_q _ Hs). rewrite <- Hc. set_solver. }
   pose proof (good_foldl_resync k mustn s0 Hown (proj1 G0)) as G1.
@@ -341,25 +344,32 @@ Proof.
     destruct (if inj then None else exec k (CDestroy n)) as [k1|] eqn:Ex.
     + destruct rest; [|done]. simplify_eq. destruct inj; [done|].
       assert (k' = delete n k) as -> by (unfold exec in Ex; destruct (k !! n); by simplify_eq).
+      set (sx := if t then rq_remove n s else forget_set n (rq_remove n s)).
+      assert (s_dp sx = s_dp s ∧ s_des sx = s_des s ∧ s_must sx = s_must s ∖ {[n]} ∧ s_dirty sx = s_dirty s
+              ∧ s_filter sx = s_filter s ∧ (∀ m, m ≠ n → s_trk sx !! m = s_trk s !! m)
+              ∧ (t = false → ∀ d p, s_trk sx !! n = Some (d, p) → p = ∅)) as (X1 & X2 & X3 & X4 & X5 & X6 & X7).
+      { subst sx. destruct t; [simpl; split_and!; done|].
+        destruct (forget_fields n (rq_remove n s)) as (F1 & F2 & F3 & F4 & F5 & F6 & F7 & F8 & F9 & F10 & F11).
+        rewrite F1, F2, F3, F5, F8. simpl. split_and!; try done. }
       split; [|split].
       * intros m Hm. destruct (decide (m = n)) as [->|Hne].
         -- right; right. split.
            ++ unfold acc. rewrite lookup_delete. destruct (is_temp n) eqn:Ht; [by left|].
               destruct t; [simpl in Hflt; done|].
-              simpl. rewrite !lookup_delete. done.
-           ++ unfold dirty_ok. destruct t; simpl; rewrite Hdes; intros d p [? ?]; done.
+              simpl. rewrite X1, lookup_delete. by apply X7.
+           ++ unfold dirty_ok. simpl. rewrite X2, Hdes. intros d p [? ?]; done.
         -- destruct (Hv m Hm) as [?|[Hq|Hg]]; [set_solver| |].
-           ++ right; left. destruct t; simpl; set_solver.
+           ++ right; left. simpl. rewrite X3. set_solver.
            ++ right; right. eapply good1_local; [|apply lookup_delete_ne; done|exact Hg].
-              unfold lstate. destruct t; simpl; rewrite ?lookup_delete_ne by done; done.
+              unfold lstate, needed. simpl. rewrite X1, X2, X4, X5, X6 by done. by rewrite lookup_delete_ne.
       * intros x mx msx Hx. destruct (decide (x = n)) as [->|]; [by rewrite lookup_delete in Hx|].
         rewrite lookup_delete_ne in Hx by done. by eapply Hn.
-      * destruct t; simpl; set_solver.
+      * simpl. rewrite X3. set_solver.
     + set (s1 := if t then s else match s_dp s !! n with Some (m, (_, lf)) => set_dp <[n:=(m, (true, lf))]> s | None => s end) in *.
       destruct (del_pass t rest ({[n]} ∪ dn) k s1) as [[[[s2 k2] ev2] c2]|] eqn:Er; [|done]. simplify_eq.
       assert (WF s1) as W1.
       { subst s1. destruct t; [done|]. destruct (s_dp s !! n) as [[m [df lf]]|] eqn:E; [|done].
-        destruct Hs as [A B C]. split; [done| |done]. intros m' Hm'. simpl in Hm'.
+        destruct Hs as [A B C Z]. split; [done| |done|done]. intros m' Hm'. simpl in Hm'.
         destruct (decide (m' = n)) as [->|]; [apply B; eauto|]. rewrite lookup_insert_ne in Hm' by done. by apply B. }
       assert (V s1 k) as V1.
       { subst s1. destruct t; [done|]. destruct (s_dp s !! n) as [[m0 [df lf]]|] eqn:E; [|done].
